@@ -1,4 +1,5 @@
 import Rivaas.Lemmas.OpenAPIDoc
+set_option linter.unusedSimpArgs false
 /-
 C07 — helper lemmas: insertion sort by key gives the same list for every permutation of an
 association list with distinct keys (the engine behind "map iteration order cannot change the output").
